@@ -42,6 +42,13 @@ type Spec struct {
 	// Reserved: locations that get a constant even when the field does not exist (yet), so that the
 	// hand-written table can name a field a pending fix will introduce
 	Reserved []string `json:"reserved"`
+	// PostPublication: accesses to `loc` in function `fn` happen after fn has already handed the
+	// object to another goroutine that uses `loc` (a registered callback, a go statement): such
+	// facts are reported under the function name `fn@shared`, which gets no init role
+	PostPublication []struct {
+		Fn  string `json:"fn"`
+		Loc string `json:"loc"`
+	} `json:"post_publication"`
 }
 
 type Fact struct {
@@ -225,7 +232,13 @@ func (c *fctx) access(sel *ast.SelectorExpr, loc, kind string, h heldSet) {
 		fresh = c.fresh[c.a.info.Uses[id]]
 	}
 	f, l := c.a.pos(sel.Sel.Pos())
-	c.a.out.Facts = append(c.a.out.Facts, Fact{loc, c.name, kind, held, fresh, f, l})
+	fn := c.name
+	for _, pp := range c.a.spec.PostPublication {
+		if pp.Fn == fn && pp.Loc == loc {
+			fn += "@shared"
+		}
+	}
+	c.a.out.Facts = append(c.a.out.Facts, Fact{loc, fn, kind, held, fresh, f, l})
 }
 
 // lockOp recognises x.mu.Lock() / RLock / Unlock / RUnlock on a tracked mutex field.
@@ -1020,6 +1033,9 @@ func writeLean(path string, out *Output, spec *Spec) error {
 	fnSet := map[string]bool{}
 	for _, f := range out.Funcs {
 		fnSet[f] = true
+	}
+	for _, pp := range spec.PostPublication {
+		fnSet[pp.Fn+"@shared"] = true
 	}
 	var fns []string
 	for f := range fnSet {
